@@ -19,6 +19,7 @@ def session_scenario(rng, purpose="rewind", allow_spend=True):
     fam = rng.weighted([
         (30, "mixed"), (14, "if-heavy"), (8, "alt-heavy"), (8, "codesep"), (8, "sig"), (5, "opcount"), (4, "bigstack"),
         (8, "disabled"), (5, "tiny"), (6 if allow_spend else 0, "dataset"), (24 if allow_spend else 0, "spend"),
+        (3, "long-listing"), (4, "pushforms"),
     ])
     scn = {"family": fam, "opts": [], "stack": [], "spend": None, "observe": True, "tty": [1, 1], "env": {}}
     flags_off = []
@@ -47,6 +48,8 @@ def session_scenario(rng, purpose="rewind", allow_spend=True):
                 flags_off.append(f)
     if fam == "codesep" and "CONST_SCRIPTCODE" not in flags_off:
         flags_off.append("CONST_SCRIPTCODE")
+    if fam == "pushforms" and "MINIMALDATA" not in flags_off:
+        flags_off.append("MINIMALDATA")
     allow_disabled = fam == "disabled" or rng.chance(10)
     pretend = fam in ("sig", "codesep") or rng.chance(15)
     g = gen.ScriptGen(rng, allow_disabled=allow_disabled, flags_off=flags_off, pretend=pretend,
@@ -98,6 +101,19 @@ def session_scenario(rng, purpose="rewind", allow_spend=True):
         while g.nonpush < target:
             g.emit("OP_NOP")
         scn["observe"] = rng.chance(15)
+    elif fam == "pushforms":
+        for _ in range(rng.range(2, 10)):
+            if rng.chance(55):
+                g.s_oddpush()
+            else:
+                g.snippet()
+    elif fam == "long-listing":
+        # listings of 100 / 1000+ entries: the index column gets wider, nothing else may change
+        n = rng.choice([98, 99, 100, 101, 250, 999, 1000, 1001, 1200])
+        g.max_ops = 100000
+        for i in range(n // 2):
+            g.emit(rng.range(0, 16), "OP_DROP") if i < 90 else g.emit(rng.range(0, 16), rng.range(0, 16))
+        scn["observe"] = n <= 101 and rng.chance(50)      # a 1000-line `print` after every step would only fill the event log
     elif fam == "bigstack":
         # stack + altstack near 1000
         n0 = rng.range(985, 998)
